@@ -5,7 +5,9 @@
 // nil/non-nil StructuredContent x IsError on legacy and current sessions), ioConn read/write with
 // batches (frames also in foreign string spellings) over an
 // in-memory stream, writeEvent/scanEvents, and byte-level fuzz of the decoders.
-// Streams: TestVerifWireMcp (C19), TestVerifWireBatch (C02: ioConn batch bookkeeping).
+// Streams: TestVerifWireMcp (C19), TestVerifWireBatch (C02: ioConn batch bookkeeping; C03: order in which
+// Read hands the messages of a batch out). The frame ops (io.rb, h.post, live.io, live.cli), the decode
+// fuzz of the protocol types (r.fuzz, r.case, r.irm) and the child-process runner are in zz_verif_wire2_test.go.
 package mcp
 
 import (
@@ -1021,7 +1023,7 @@ func (p *tokStream) toolReturn() (func() (*CallToolResult, error), bool) {
 // cannot be recovered and would take the harness, and every record after it, away.
 func inChild(op string) string {
 	cmd := exec.Command(os.Args[0], "-test.run", "^TestVerifWireChild$", "-test.count=1")
-	cmd.Env = append(os.Environ(), "VERIF_CHILD_OP="+op)
+	cmd.Env = append(os.Environ(), "VERIF_CHILD_OP="+op, "VERIF_CHILD_OPS=")
 	out, err := cmd.CombinedOutput()
 	for _, l := range strings.Split(string(out), "\n") {
 		if rest, ok := strings.CutPrefix(l, "CHILD-OBS "); ok {
@@ -1036,6 +1038,15 @@ func inChild(op string) string {
 
 func TestVerifWireChild(t *testing.T) {
 	op := os.Getenv("VERIF_CHILD_OP")
+	if ops := os.Getenv("VERIF_CHILD_OPS"); ops != "" {
+		// several ops, one observation line each (see inChildren)
+		w := &wireWorld{child: true}
+		for _, o := range strings.Split(ops, "\n") {
+			fmt.Printf("\nCHILD-OBS %s\n", w.apply(o))
+			os.Stdout.Sync()
+		}
+		return
+	}
 	if op == "" {
 		t.Skip("only run as a child of the wire harness")
 	}
@@ -1316,7 +1327,13 @@ type wireWorld struct {
 	empty *zeroWorld
 	calls map[string]*callWorld
 	child bool // running inside inChild
+	posts postWorld
+	// observations of ops that run in a child process, made ahead of time (prefetch)
+	childCache map[string]string
 }
+
+// wirePrefetch: set by runWire; a generator hands it the child-process ops it is about to step through.
+var wirePrefetch = func([]string) {}
 
 func (w *wireWorld) close() {
 	if w.io.conn != nil {
@@ -1528,11 +1545,11 @@ func (w *wireWorld) apply(op string) (obs string) {
 		w.io.reset(n)
 		return "ok"
 	case "io.feed":
-		v, ok := p.jv()
-		if !ok || w.io.conn == nil || w.io.eofFed {
+		v, layout, ok := p.frameArg()
+		if !ok || w.io.conn == nil || w.io.eofFed || layout == 3 {
 			return "bad-op"
 		}
-		w.io.rwc.feed([]byte(v.text()+"\n"), false)
+		w.io.rwc.feed([]byte(layoutText(v, layout)+lineEnd(layout)), false)
 		w.io.pending++
 		return "ok"
 	case "io.eof":
@@ -1562,14 +1579,19 @@ func (w *wireWorld) apply(op string) (obs string) {
 				return "would-block"
 			}
 		}
-		takes := len(c.queue) == 0
-		msg, err := c.Read(context.Background())
-		if takes {
+		// the bookkeeping comes first: Read may panic (recovered in apply) or not return
+		if len(c.queue) == 0 {
 			if w.io.pending > 0 {
 				w.io.pending--
 			} else {
 				w.io.eofSeen = true
 			}
+		}
+		rctx, rcancel := context.WithTimeout(context.Background(), 10*time.Second)
+		defer rcancel()
+		msg, err := c.Read(rctx)
+		if err != nil && rctx.Err() != nil {
+			return "hang"
 		}
 		if err != nil {
 			return fmt.Sprintf("err %s q%d", readErrTok(err), len(c.queue))
@@ -1586,7 +1608,7 @@ func (w *wireWorld) apply(op string) (obs string) {
 		}
 		return writtenTok(w.io.rwc.takeOut())
 	}
-	return "bad-op"
+	return w.apply2(p.t[0], p, op)
 }
 
 // fuzzDecode feeds arbitrary bytes to the decoders of package mcp; only "does not panic" is observed.
@@ -1629,6 +1651,7 @@ type stepper func(op string, tags ...string) string
 func runWire(t *testing.T, out *verifOut, stream string, gen func(newCase func(name string) stepper)) {
 	w := &wireWorld{}
 	defer w.close()
+	wirePrefetch = w.prefetch
 	newCase := func(name string) stepper {
 		out.line(name, "reset", "ok", "reset")
 		if w.io.conn != nil {
@@ -1636,7 +1659,22 @@ func runWire(t *testing.T, out *verifOut, stream string, gen func(newCase func(n
 			w.io.conn = nil
 		}
 		return func(op string, tags ...string) string {
+			// watchdog: an op that does not come back (an SDK call that blocks for ever on the harness
+			// goroutine) is recorded as the observation "hang" and the run ends there, instead of
+			// sitting out the test timeout
+			finished := make(chan struct{})
+			go func() {
+				select {
+				case <-finished:
+				case <-time.After(3 * time.Minute):
+					out.line(name, op, "hang", strings.Fields(op)[0], "hang")
+					out.close()
+					fmt.Fprintf(os.Stderr, "verif: op did not return within 3 minutes: %.300s\n", op)
+					os.Exit(3)
+				}
+			}()
 			obs := w.apply(op)
+			close(finished)
 			kind := strings.Fields(op)[0]
 			tags = append([]string{kind}, tags...)
 			if obs == "panic" {
@@ -1661,7 +1699,7 @@ func runWire(t *testing.T, out *verifOut, stream string, gen func(newCase func(n
 		step := newCase("replay")
 		for _, op := range readOpsFile(t, rp) {
 			k := strings.Fields(op)[0]
-			if strings.HasPrefix(k, "io.") || (stream == "mcp" && (strings.HasPrefix(k, "c.") || strings.HasPrefix(k, "r.") || strings.HasPrefix(k, "sse."))) {
+			if strings.HasPrefix(k, "io.") || (stream == "mcp" && (strings.HasPrefix(k, "c.") || strings.HasPrefix(k, "r.") || strings.HasPrefix(k, "sse.") || strings.HasPrefix(k, "h.") || strings.HasPrefix(k, "live."))) {
 				step(op)
 			}
 		}
@@ -1875,7 +1913,12 @@ func (g *ioGen) element(used *[]jv) jv {
 		}
 		*used = append(*used, id)
 		return wireReq(&id, []string{"ping", "tools/call", "x"}[r.Intn(3)], params)
-	case x < 15: // notification
+	case x < 15: // notification; half of them numbered, so that a reordering inside a batch shows
+		if r.Intn(2) == 0 {
+			g.nextID++
+			seq := jObj(jmem{"seq", jInt(g.nextID)})
+			params = &seq
+		}
 		return wireReq(nil, []string{"notifications/progress", "notifications/initialized", "n"}[r.Intn(3)], params)
 	case x < 18: // response
 		id := g.idJ()
@@ -1895,6 +1938,11 @@ func (g *ioGen) frame(used *[]jv) jv {
 	if g.batchy {
 		pBatch = 75
 	}
+	if r.Intn(14) == 0 {
+		// a frame without a message: [], null, [[]], [null], … (every reader must reject it with an error)
+		d := degenerateFrames()
+		return d[r.Intn(len(d))]
+	}
 	if r.Intn(100) >= pBatch {
 		return g.element(used)
 	}
@@ -1902,6 +1950,9 @@ func (g *ioGen) frame(used *[]jv) jv {
 		return jArr() // empty batch
 	}
 	n := 1 + r.Intn(4)
+	if r.Intn(6) == 0 {
+		n = 3 + r.Intn(4)
+	}
 	out := jv{k: 'a'}
 	for i := 0; i < n; i++ {
 		out.a = append(out.a, g.element(used))
@@ -1949,7 +2000,15 @@ func (g *ioGen) run(step stepper) {
 			f = spellJ(r, f, []int{20, 100}[r.Intn(2)])
 			tag += ",spelled"
 		}
-		step("io.feed "+f.tok(), strings.Split(tag, ",")...)
+		lay := ""
+		if k := r.Intn(8); k == 1 || k == 2 {
+			lay = fmt.Sprintf(" L%d", k)
+			tag += fmt.Sprintf(",layout:%d", k)
+		}
+		if f.k != 'o' && (f.k != 'a' || len(f.a) == 0 || f.a[0].k != 'o') {
+			tag += ",frame:no-message"
+		}
+		step("io.feed "+f.tok()+lay, strings.Split(tag, ",")...)
 		fed++
 	}
 	for i := 0; i < 1+r.Intn(nFrames); i++ {
@@ -1989,6 +2048,8 @@ func (g *ioGen) run(step stepper) {
 			obs := step("io.read")
 			f := strings.Fields(obs)
 			switch {
+			case obs == "panic" || obs == "hang":
+				return // the connection's reader is gone: nothing after this is meaningful
 			case obs == "would-block":
 				canRead = false
 			case len(f) > 1 && f[0] == "err" && f[1] == "eof":
@@ -2136,8 +2197,131 @@ func TestVerifWireMcp(t *testing.T) {
 				step("r.rt "+name+" "+j1.tok(), "type:"+name)
 			}
 		}
+		// frames that carry no message, through every reader of peer data, in every layout
+		var liveOps []string
+		var liveOpTags [][]string
+		{
+			frames := degenerateFrames()
+			valid := []jv{okNotif, okPing, jArr(okNotif, okPing), jArr(okPing)}
+			for vi, ver := range []string{"", "io.ver 0", "io.ver 1"} {
+				for fi, f := range append(append([]jv{}, frames...), valid...) {
+					for _, lay := range []int{0, 1, 2} {
+						if lay != 0 && (vi != 0 && fi%4 != 0) {
+							continue
+						}
+						step = newCase(fmt.Sprintf("frame-io-%d-%d-%d", vi, fi, lay))
+						step("io.new 0")
+						if ver != "" {
+							step(ver)
+						}
+						step(fmt.Sprintf("io.feed %s L%d", f.tok(), lay), "frame:fixed", fmt.Sprintf("layout:%d", lay))
+						step("io.feed "+okNotif.tok(), "frame:single")
+						step("io.eof")
+						for k := 0; k < 4; k++ {
+							if obs := step("io.read"); obs == "panic" || obs == "hang" || strings.HasPrefix(obs, "err eof") {
+								break
+							}
+						}
+					}
+				}
+			}
+			step = newCase("frame-readbatch")
+			for _, f := range append(append([]jv{}, frames...), valid...) {
+				for lay := 0; lay <= 3; lay++ {
+					step(fmt.Sprintf("io.rb %s L%d", f.tok(), lay), "frame:fixed", fmt.Sprintf("layout:%d", lay))
+				}
+			}
+			step = newCase("frame-post")
+			for _, path := range []string{"stateless", "stateful", "sse"} {
+				for _, f := range append(append([]jv{}, frames...), okNotif, jArr(okNotif)) {
+					for _, lay := range []int{0, 1, 3} {
+						step(fmt.Sprintf("h.post %s %s L%d", path, f.tok(), lay), "post:"+path, "frame:fixed", fmt.Sprintf("layout:%d", lay))
+					}
+				}
+			}
+			// live sessions (child process): a server on an io transport, a streamable client
+			var live []string
+			var liveTags [][]string
+			for _, ver := range []string{"old", "new"} {
+				for fi, f := range append(append([]jv{}, frames...), valid...) {
+					lays := []int{0}
+					if fi < 2 {
+						lays = []int{0, 1, 2}
+					}
+					for _, lay := range lays {
+						live = append(live, fmt.Sprintf("live.io %s %s L%d", ver, f.tok(), lay))
+						liveTags = append(liveTags, []string{"live:io", "ver:" + ver, fmt.Sprintf("layout:%d", lay)})
+					}
+				}
+			}
+			okResp := jObj(jmem{"jsonrpc", jStr("2.0")}, jmem{"id", jStr("@")}, jmem{"result", jObj()})
+			for _, kind := range []string{"json", "sse"} {
+				for fi, f := range append(append([]jv{}, frames...), okResp) {
+					lays := []int{0}
+					if fi < 2 {
+						lays = []int{0, 1}
+					}
+					for _, lay := range lays {
+						live = append(live, fmt.Sprintf("live.cli %s %s L%d", kind, f.tok(), lay))
+						liveTags = append(liveTags, []string{"live:cli", "kind:" + kind, fmt.Sprintf("layout:%d", lay)})
+					}
+				}
+			}
+			// some generated frames as well
+			{
+				lg := &ioGen{r: verifRng(7711)}
+				for i, n := 0, verifN(24, 400); i < n; i++ {
+					var used []jv
+					f := lg.frame(&used)
+					live = append(live, fmt.Sprintf("live.io %s %s L%d", []string{"old", "new"}[r.Intn(2)], f.tok(), r.Intn(3)))
+					liveTags = append(liveTags, []string{"live:io", "frame:generated"})
+				}
+			}
+			// run now (one child process), recorded at the end of the stream: what a live session shows of
+			// a broken reader is the least specific observation, the in-process ops name the clause first
+			wirePrefetch(live)
+			liveOps, liveOpTags = live, liveTags
+		}
+		// decode fuzz of every protocol type: null at every position of a generated value, every
+		// member name in another case
+		{
+			ftypes, fnames := fuzzTypes()
+			step = newCase("fuzz-types")
+			for _, name := range fnames {
+				for rep := 0; rep < verifN(2, 6); rep++ {
+					x := reflect.New(ftypes[name])
+					g.fill(x.Elem(), 3, name, false)
+					data, err := json.Marshal(x.Interface())
+					if err != nil {
+						continue
+					}
+					j0, err := parseJSON(data)
+					if err != nil {
+						continue
+					}
+					if hasEmptyKey(j0) {
+						continue
+					}
+					j0 = canonJ(j0)
+					var ps []jpath
+					jvPaths(j0, nil, &ps)
+					for _, p := range ps {
+						m := jvEdit(j0, p, func(jv) (jv, bool) { return jNull(), true })
+						step("r.fuzz "+name+" "+m.tok(), "type:"+name, "mut:null")
+						if key, ok := memberAt(j0, p); ok {
+							if fl, ok := flipCase(key); ok {
+								if a, ap, ok := renamedAt(j0, p, fl); ok {
+									step("r.case "+name+" "+pathTok(ap)+" s"+hxs(fl)+" "+a.tok(), "type:"+name, "mut:case")
+								}
+							}
+						}
+					}
+				}
+			}
+		}
 		n := verifN(2500, 35000)
 		iog := &ioGen{r: r}
+		ftypes, fnames := fuzzTypes()
 		for c := 0; c < n; c++ {
 			step := newCase(fmt.Sprintf("w%d", c))
 			// content: encode, round trip per context, decode of (mutated) JSON
@@ -2249,6 +2433,49 @@ func TestVerifWireMcp(t *testing.T) {
 			}
 			// ioConn
 			iog.run(step)
+			// the same kinds of frames through readBatch and as POST bodies
+			{
+				var used []jv
+				f := iog.frame(&used)
+				step(fmt.Sprintf("io.rb %s L%d", f.tok(), r.Intn(4)), "frame:generated")
+				f = iog.frame(&used)
+				path := []string{"stateless", "stateful", "sse"}[r.Intn(3)]
+				step(fmt.Sprintf("h.post %s %s L%d", path, f.tok(), []int{0, 1, 3}[r.Intn(3)]), "post:"+path, "frame:generated")
+			}
+			// structured decode fuzz of the protocol types, inputRequests against the model
+			for i := 0; i < 3; i++ {
+				name := fnames[r.Intn(len(fnames))]
+				x := reflect.New(ftypes[name])
+				g.fill(x.Elem(), 3, name, false)
+				data, err := json.Marshal(x.Interface())
+				if err != nil {
+					continue
+				}
+				j0, err := parseJSON(data)
+				if err != nil {
+					continue
+				}
+				if hasEmptyKey(j0) {
+					continue
+				}
+				m, tag := mutateJ(r, canonJ(j0))
+				for k := r.Intn(3); k > 0; k-- {
+					m, _ = mutateJ(r, m)
+				}
+				step("r.fuzz "+name+" "+m.tok(), "type:"+name, tag)
+			}
+			for i := 0; i < 2; i++ {
+				ir := genInputRequests(r)
+				tag := "irm:plain"
+				if ir.k == 'o' {
+					for _, e := range ir.o {
+						if e.v.k == 'z' {
+							tag = "irm:null-entry"
+						}
+					}
+				}
+				step("r.irm "+ir.tok(), tag)
+			}
 			// byte-level fuzz of the decoders ("never panics")
 			for i := 0; i < 4; i++ {
 				var b []byte
@@ -2277,6 +2504,10 @@ func TestVerifWireMcp(t *testing.T) {
 				step("c.fuzz "+what+" x"+hx(b), "fuzz:"+strings.Split(what, "/")[0])
 			}
 		}
+		step = newCase("frame-live")
+		for i, op := range liveOps {
+			step(op, liveOpTags[i]...)
+		}
 	})
 }
 
@@ -2300,7 +2531,8 @@ func TestVerifWireBatch(t *testing.T) {
 						ids = append(ids, id.tok())
 						out.a = append(out.a, wireReq(&id, "ping", nil))
 					} else {
-						out.a = append(out.a, wireReq(nil, "notifications/progress", nil))
+						seq := jObj(jmem{"seq", jInt(int64(i))})
+						out.a = append(out.a, wireReq(nil, "notifications/progress", &seq))
 					}
 				}
 				step("io.feed "+out.tok(), fmt.Sprintf("frame:batch%d", size), fmt.Sprintf("batch:calls%d-notifs%d", len(ids), size-len(ids)))
@@ -2315,6 +2547,35 @@ func TestVerifWireBatch(t *testing.T) {
 					step("io.write resp "+id+" o{ } -", "write:response")
 				}
 				step("io.read")
+			}
+		}
+		// order of delivery (C03): batches of 3..8 numbered notifications / calls, alone and between
+		// single frames, read to the end
+		for size := 3; size <= 8; size++ {
+			for variant := 0; variant < 3; variant++ {
+				step := newCase(fmt.Sprintf("order%d-%d", size, variant))
+				step("io.new 0")
+				out := jv{k: 'a'}
+				for i := 0; i < size; i++ {
+					seq := jObj(jmem{"seq", jInt(int64(i))})
+					if variant == 1 || (variant == 2 && i%2 == 0) {
+						id := jInt(int64(9000 + 10*size + i))
+						out.a = append(out.a, wireReq(&id, "ping", &seq))
+					} else {
+						out.a = append(out.a, wireReq(nil, "notifications/progress", &seq))
+					}
+				}
+				first := jObj(jmem{"seq", jStr("before")})
+				last := jObj(jmem{"seq", jStr("after")})
+				step("io.feed "+wireReq(nil, "n", &first).tok(), "frame:single")
+				step("io.feed "+out.tok(), fmt.Sprintf("frame:batch%d", size), "order")
+				step("io.feed "+wireReq(nil, "n", &last).tok(), "frame:single")
+				step("io.eof")
+				for i := 0; i < size+3; i++ {
+					if obs := step("io.read"); !strings.HasPrefix(obs, "msg ") {
+						break
+					}
+				}
 			}
 		}
 		g := &ioGen{r: r, batchy: true}
